@@ -65,7 +65,7 @@ var c18Contents = map[string]string{
 	"HelloLilith.txt": "Hello, Lilith\nHello, \"World\" 42\nHello, 50%off%d%s 100%\n",
 	"numbers.txt":     "7 and 1234 Hello, Ada\\n\tx 9%\n",
 	"100%d.txt":       "Hello, percent%name 3\n",
-	"other.txt":       "nothing to see <here>\nHello, caf\u00e9 na\u00efve \u20ac 7\nHello, \x01ctl\x7f\x0b\x07 8\nHello, bad\xffutf\xc3 9\nHello, \U000E0067tag\U0001D173 10\n",
+	"other.txt":       "nothing to see <here>\nHello, caf\u00e9 na\u00efve \u20ac 7\nHello, \x01ctl\x7f\x0b\x07 8\nHello, bad\xffutf\xc3 9\nHello, \U000E0067tag\U0001D173 10\nHello, \\u003cb\\u003e\\u0026\\u2028\\n 12\n",
 	"keep.dat":        "bystander 99 Hello, Nobody",
 	"numb-bers.txt":   "Hello, Star 5\n",
 	"sub/inner.txt":   "deep 12 Hello, Sub\n",
